@@ -162,6 +162,9 @@ Required(ctx, ch) ==
   IN D([x \in DOMAIN d.m \ kept |-> d.m[x]])
 Contains(obs, req) == IsD(obs) /\ \A x \in DOMAIN req.m : x \in DOMAIN obs.m /\ obs.m[x] = req.m[x]
 
+\* what the last variable of a chain describes itself with
+LastVC(ch) == LET vc == VC(ch[Len(ch)]) IN IF Has(vc, "compose") THEN Without(vc, "compose") ELSE vc
+
 \* chains with nested expressions: type names only, the chain's own types in application order
 RECURSIVE TypeNames(_), TopType(_), IsSubseq(_, _)
 TypeNames(e) == (IF e.v.type = "" THEN {} ELSE {e.v.type})
